@@ -197,7 +197,7 @@ def run(ctx, res):
                 Lark.load(buf).parse(w['text'])
             except UnexpectedInput:
                 res.violation('regression of fixed finding F3: ' + f['what'], w)
-    N = tier_scale(ctx['tier'], 450, 8000) * (3 if ctx['deepen'] else 1)
+    N = tier_scale(ctx['tier'], 900, 9000) * (3 if ctx['deepen'] else 1)
     jobs = [(shapelib.gen_grammar(rng), rng.randrange(1 << 30), i % 3 == 0) for i in range(N)]
     outs = pmap(_case, jobs, chunksize=2)
     for job, (st, rec) in zip(jobs, outs):
